@@ -69,8 +69,11 @@ where
     F: Parser<I, O, E>,
     E: ParseError<I>,
 {
-    debug_assert!(count <= VEC_SIZE);
     move |i: I| {
+        // more items than the fixed-size output can hold: an error, like the other capacity limits
+        if count > VEC_SIZE {
+            return Err(nom::Err::Failure(E::from_error_kind(i, ErrorKind::TooLarge)));
+        }
         let mut input = i.clone();
         let mut res = crate::lib::std::vec::Vec::new();
 
